@@ -387,6 +387,8 @@ def table_pointers_not_kept(c, chk, rid='R7.11'):
                     if m_:
                         elsewhere.add(m_.group(1))
     for g in mod.globals.values():
+        if str(g.get('const')) == 'True':
+            continue          # (a constant initialiser image of a local aggregate)
         for m_ in _re.finditer(r'%struct\.[A-Za-z0-9_.]+', g.get('ty') or ''):
             elsewhere.add(m_.group(0))
     stack_only = on_stack - elsewhere - {'%struct.cfg_t', '%struct.cfg_opt_t'}
@@ -608,6 +610,11 @@ def freecb_rule(c, chk, ex):
             anchor = next((x for x in f.calls() if x.callee_name() in set(g.name for g in c.deep_funcs(f)) and
                            any(y is fcb[0] for y in c.deep_calls(c.func(x.callee_name())))), fcb[0])
         ok = any(x.block.label in pd.get(anchor.block.label, ()) or (x.block is anchor.block and x.idx > anchor.idx) for x in frees)
+        if not ok and fcb[0].func is not f:
+            # callback and release of the slot both sit in the helper
+            g_ = fcb[0].func
+            pdg = _cfg.postdominators(g_)
+            ok = any(x.block.label in pdg.get(fcb[0].block.label, ()) or (x.block is fcb[0].block and x.idx > fcb[0].idx) for x in g_.calls('free'))
         if ok:
             chk.ok('R7.5', 'cfg_free_value: pointer values', 'freecb(value) under type==PTR && freecb && value, followed by the release of the slot')
         else:
